@@ -140,3 +140,78 @@ def map_desc(fi, e):
     return muts[0]
 
 
+
+
+def _subst_env(e, env):
+    class R(ast.NodeTransformer):
+        def visit_Name(self, n):
+            if isinstance(n.ctx, ast.Load) and n.id in env:
+                return ast.parse(ast.unparse(env[n.id]), mode="eval").body
+            return n
+
+        def visit_Lambda(self, n):
+            return n
+
+    return R().visit(ast.parse(ast.unparse(e), mode="eval").body)
+
+
+def sym_env_before(fi, node):
+    """Values of the function's locals just before the top-level statement that contains `node`, as expressions over
+    the parameters (sequential substitution through the top-level assignments, also for names assigned several times).
+    A name assigned inside a compound statement becomes `<name>?` (unknown)."""
+    from .model import parent
+
+    top = node
+    while top is not None and parent(top) is not fi.node:
+        top = parent(top)
+    env = {}
+    for st in fi.node.body:
+        if st is top:
+            break
+        if isinstance(st, ast.Assign) and len(st.targets) == 1:
+            t, v = st.targets[0], st.value
+            if isinstance(t, ast.Name):
+                env[t.id] = _subst_env(v, env)
+                continue
+            if isinstance(t, (ast.Tuple, ast.List)) and all(isinstance(x, (ast.Name, ast.Tuple)) for x in t.elts):
+                sv = _subst_env(v, env)
+
+                def bind(tt, vv):
+                    if isinstance(tt, ast.Name):
+                        env[tt.id] = vv
+                    else:
+                        for i, x in enumerate(tt.elts):
+                            if isinstance(vv, (ast.Tuple, ast.List)) and len(vv.elts) == len(tt.elts):
+                                bind(x, vv.elts[i])
+                            else:
+                                bind(x, ast.Subscript(value=vv, slice=ast.Constant(value=i), ctx=ast.Load()))
+
+                bind(t, sv)
+                continue
+        if isinstance(st, ast.AnnAssign) and isinstance(st.target, ast.Name) and st.value is not None:
+            env[st.target.id] = _subst_env(st.value, env)
+            continue
+        if isinstance(st, ast.AugAssign) and isinstance(st.target, ast.Name):
+            cur = env.get(st.target.id, ast.Name(id=st.target.id, ctx=ast.Load()))
+            env[st.target.id] = ast.BinOp(left=cur, op=st.op, right=_subst_env(st.value, env))
+            continue
+        for n in ast.walk(st):
+            if isinstance(n, ast.Name) and isinstance(n.ctx, ast.Store):
+                env[n.id] = ast.Name(id=n.id + "?", ctx=ast.Load())
+    return env
+
+
+def sym_value(fi, e):
+    """expression e (somewhere in fi) with the locals it mentions replaced by their values at that point"""
+    return _subst_env(e, sym_env_before(fi, e))
+
+
+def path_value(sm, e, depth=4):
+    """expression e with the names assigned on the path `sm` (a PathSummary with .stmts) replaced by their last value there"""
+    if depth <= 0:
+        return e
+    env = {}
+    for st in sm.stmts:
+        if isinstance(st, ast.Assign) and len(st.targets) == 1 and isinstance(st.targets[0], ast.Name):
+            env[st.targets[0].id] = _subst_env(st.value, env)
+    return _subst_env(e, env)
